@@ -92,35 +92,36 @@ Section Sim.
   Variables (mss k : N) (status_of : entry -> N) (v : entry -> N -> bool).
   Variable R : S1 -> S2 -> Prop.
   Variable ok : entry -> Prop.          (* what the stores are ever asked to insert *)
-  Hypothesis first_eq : forall a b, R a b -> so_first ops1 a = so_first ops2 b.
   Hypothesis range_eq : forall a b x y, R a b -> so_range ops1 a x y = so_range ops2 b x y.
   Hypothesis put_sim : forall a b e, R a b -> ok e ->
     R (fst (so_put ops1 a e)) (fst (so_put ops2 b e)) /\ snd (so_put ops1 a e) = snd (so_put ops2 b e).
-  Hypothesis valid_ok : forall e st, v e st = true -> ok e.
   Let val1 := fun (_ : S1) (e : entry) (st : N) => v e st.
   Let val2 := fun (_ : S2) (e : entry) (st : N) => v e st.
+  (** the values that pass validation are fit to be inserted *)
+  Definition fit (vs : list (entry * N)) : Prop := forall q, In q vs -> v (fst q) (snd q) = true -> ok (fst q).
 
-  Lemma store_values_sim vs : forall a b, R a b ->
+  Lemma store_values_sim vs : fit vs -> forall a b, R a b ->
     R (fst (store_values ops1 val1 a vs)) (fst (store_values ops2 val2 b vs)) /\
     snd (store_values ops1 val1 a vs) = snd (store_values ops2 val2 b vs).
   Proof.
-    unfold val1, val2. induction vs as [|[e st] vs IH]; intros a b H; cbn [store_values]; [split; auto|].
+    unfold val1, val2. induction vs as [|[e st] vs IH]; intros FIT a b H; cbn [store_values]; [split; auto|].
+    assert (FIT' : fit vs) by (intros q Hq; apply FIT; now right).
     destruct (v e st) eqn:V; [|now apply IH].
-    destruct (put_sim a b e H (valid_ok e st V)) as [H' O].
+    destruct (put_sim a b e H (FIT (e, st) (or_introl eq_refl) V)) as [H' O].
     destruct (so_put ops1 a e) as [a' o1], (so_put ops2 b e) as [b' o2]. cbn [fst snd] in *. subst o2.
     destruct o1 as [|n]; [now apply IH|].
-    specialize (IH a' b' H').
+    specialize (IH FIT' a' b' H').
     destruct (store_values ops1 _ a' vs) as [a'' i1], (store_values ops2 _ b' vs) as [b'' i2].
     cbn [fst snd] in *. destruct IH as [IH1 ->]. split; auto.
   Qed.
 
-  Lemma process_item_sim a b x y vs hl : R a b ->
+  Lemma process_item_sim a b x y vs hl : fit vs -> R a b ->
     let '(a', o1, i1) := process_item ops1 status_of val1 a x y vs hl in
     let '(b', o2, i2) := process_item ops2 status_of val2 b x y vs hl in
     R a' b' /\ o1 = o2 /\ i1 = i2.
   Proof.
-    intros H. unfold process_item. rewrite (range_eq a b x y H).
-    destruct (store_values_sim vs a b H) as [H' I].
+    intros FIT H. unfold process_item. rewrite (range_eq a b x y H).
+    destruct (store_values_sim vs FIT a b H) as [H' I].
     destruct (store_values ops1 val1 a vs) as [a' i1], (store_values ops2 val2 b vs) as [b' i2].
     cbn [fst snd] in *. subst i2. auto.
   Qed.
@@ -133,26 +134,29 @@ Section Sim.
     apply map_ext. intros r. now rewrite (range_eq a b _ _ H).
   Qed.
 
-  Theorem process_message_sim a b m : R a b ->
+  Theorem process_message_sim a b m : (forall p, In p m -> fit (part_values p)) -> R a b ->
     let '(a', r1, i1) := process_message ops1 mss k status_of val1 a m in
     let '(b', r2, i2) := process_message ops2 mss k status_of val2 b m in
     R a' b' /\ r1 = r2 /\ i1 = i2.
   Proof.
-    intros H. unfold process_message.
+    intros FIT H. unfold process_message.
     set (f1 := fun (acc : S1 * list part * list (entry * N)) (p : part) => _).
     set (f2 := fun (acc : S2 * list part * list (entry * N)) (p : part) => _).
-    assert (FOLD : forall items a b o i, R a b ->
+    assert (FOLD : forall items, (forall p, In p items -> fit (part_values p)) -> forall a b o i, R a b ->
               let '(a', o1, i1) := fold_left f1 items (a, o, i) in
               let '(b', o2, i2) := fold_left f2 items (b, o, i) in
               R a' b' /\ o1 = o2 /\ i1 = i2).
-    { induction items as [|p items IH]; intros a0 b0 o i H0; cbn [fold_left]; auto.
+    { induction items as [|p items IH]; intros FI a0 b0 o i H0; cbn [fold_left]; auto.
+      assert (FI' : forall p0, In p0 items -> fit (part_values p0)) by (intros p0 H1; apply FI; now right).
       destruct p as [x y fp|x y vs hl]; unfold f1 at 2, f2 at 2.
       - now apply IH.
-      - pose proof (process_item_sim a0 b0 x y vs hl H0) as PS.
+      - pose proof (process_item_sim a0 b0 x y vs hl (FI _ (or_introl eq_refl)) H0) as PS.
         destruct (process_item ops1 status_of val1 a0 x y vs hl) as [[a' o1] i1].
         destruct (process_item ops2 status_of val2 b0 x y vs hl) as [[b' o2] i2].
         destruct PS as (H' & -> & ->). now apply IH. }
-    specialize (FOLD (filter is_item m) a b [] [] H).
+    assert (FI : forall p, In p (filter is_item m) -> fit (part_values p)).
+    { intros p Hp. apply FIT. apply filter_In in Hp. tauto. }
+    specialize (FOLD (filter is_item m) FI a b [] [] H).
     destruct (fold_left f1 (filter is_item m) (a, [], [])) as [[a' o1] i1].
     destruct (fold_left f2 (filter is_item m) (b, [], [])) as [[b' o2] i2].
     destruct FOLD as (H' & -> & ->).
@@ -167,17 +171,18 @@ End Sim.
 (** ---- the table-level store against the ordered list ---- *)
 Definition tbl_rel (ns : N) (T : tables) (S : list entry) : Prop := wf_records T /\ S = fs_all ns T.
 Definition ok_entry (ns : N) (e : entry) : Prop := wf_entry e /\ e_ns e = ns.
+(** the values of a message are well formed (what the decoder guarantees), and validation checks
+    the namespace *)
+Definition wf_message (m : message) : Prop := forall p q, In p m -> In q (part_values p) -> wf_entry (fst q).
 
 Theorem table_store_is_ordered_map EH ns mss k status_of v T m :
-  wf_records T -> (forall e st, v e st = true -> ok_entry ns e) ->
+  wf_records T -> wf_message m -> (forall e st, v e st = true -> e_ns e = ns) ->
   let '(T', r1, i1) := process_message (fs_ops prefix_succ EH ns) mss k status_of (fun _ e st => v e st) T m in
   let '(S', r2, i2) := process_message om_ops mss k status_of (fun _ e st => v e st) (fs_all ns T) m in
   wf_records T' /\ S' = fs_all ns T' /\ r1 = r2 /\ i1 = i2.
 Proof.
-  intros WT VOK.
+  intros WT WM VNS.
   pose proof (process_message_sim (fs_ops prefix_succ EH ns) om_ops mss k status_of v (tbl_rel ns) (ok_entry ns)) as SIM.
-  assert (P1 : forall a b, tbl_rel ns a b -> so_first (fs_ops prefix_succ EH ns) a = so_first om_ops b).
-  { intros a b [_ ->]. reflexivity. }
   assert (P2 : forall a b x y, tbl_rel ns a b -> so_range (fs_ops prefix_succ EH ns) a x y = so_range om_ops b x y).
   { intros a b x y [W ->]. cbn [so_range fs_ops om_ops]. now apply get_range_exact. }
   assert (P3 : forall a b e, tbl_rel ns a b -> ok_entry ns e ->
@@ -185,7 +190,9 @@ Proof.
             snd (so_put (fs_ops prefix_succ EH ns) a e) = snd (so_put om_ops b e)).
   { intros a b e [W ->] [We Ne]. cbn [so_put fs_ops om_ops].
     destruct (fs_put_is_om_put EH ns a e W We Ne) as (A & B & C). split; auto. split; auto. }
-  specialize (SIM P2 P3 VOK T (fs_all ns T) m (conj WT eq_refl)).
+  assert (FIT : forall p, In p m -> fit v (ok_entry ns) (part_values p)).
+  { intros p Hp q Hq V. split; [exact (WM p q Hp Hq)|exact (VNS _ _ V)]. }
+  specialize (SIM P2 P3 T (fs_all ns T) m FIT (conj WT eq_refl)).
   destruct (process_message (fs_ops prefix_succ EH ns) mss k status_of (fun _ e st => v e st) T m) as [[T' r1] i1].
   destruct (process_message om_ops mss k status_of (fun _ e st => v e st) (fs_all ns T) m) as [[S' r2] i2].
   destruct SIM as ([W' E] & -> & ->). auto.
